@@ -281,3 +281,9 @@ def run(ctx):
                     bad.append("%s@%s" % (M.callee_str(t["f"]).split("::")[-1], p))
         ctx.ob("R01.6", "single-engine:%s" % ent.split("::", 1)[1], ri.path in cl and not bad, f.loc(0),
                "%s must exchange data only through the poll loop (other pipe I/O reachable: %s)" % (ent, bad))
+
+
+def run_thorough(ctx):
+    # the cfg(windows) sibling implementation, analysed on the windows-msvc build
+    import winrules
+    winrules.c01_threads_do_the_io(ctx)
